@@ -2,6 +2,7 @@ package interp
 
 import (
 	"fmt"
+	"os"
 	"runtime/debug"
 	"unsafe"
 	"go/constant"
@@ -102,6 +103,12 @@ func (m *Machine) constValue(c *ssa.Const) Value {
 // ---- runtime panics of the target ----
 
 func (m *Machine) runtimePanic(msg string) {
+	if m.cfg.Trace {
+		fmt.Fprintf(os.Stderr, "  runtime panic %q in:\n", msg)
+		for f, i := m.cur, 0; f != nil && i < 12; f, i = f.caller, i+1 {
+			fmt.Fprintf(os.Stderr, "     %s\n", f.fn.String())
+		}
+	}
 	var t types.Type
 	func() {
 		defer func() { recover() }()
@@ -169,6 +176,9 @@ func (m *Machine) callFunction(caller *frame, fn *ssa.Function, args []Value, en
 	m.funcsSeen[fn.String()]++
 
 	fr := &frame{m: m, caller: caller, fn: fn}
+	prevCur := m.cur
+	m.cur = fr
+	defer func() { m.cur = prevCur }()
 	fr.env = make(map[ssa.Value]Value, 16)
 	fr.block = fn.Blocks[0]
 	fr.locals = make([]Value, len(fn.Locals))
@@ -307,6 +317,9 @@ func (m *Machine) doRecover(caller *frame) Value {
 		p := caller.caller.panicV
 		caller.caller.panicV = nil
 		if tp, ok := p.(targetPanic); ok {
+			if m.cfg.Trace {
+				fmt.Fprintf(os.Stderr, "  target recovered panic: %s\n", m.DebugString(tp.V))
+			}
 			return tp.V
 		}
 		panic(fmt.Sprintf("unexpected panic %T in recover", p))
